@@ -1,6 +1,6 @@
 SPEC_PART = dict(
     props_file="C14_cpc",
-    legs=[dict(family="cpc", focus="malformed", oracles=["malformed_ok"], profiles=["debug", "release"], n_quick=None, n_thorough=None,
+    legs=[dict(family="cpc", focus="malformed", oracles=["malformed_ok"], profiles=["debug", "release"], n_quick=None, n_thorough=None, coq_sample=1,
                mask=[0, 1, 2, 3, 4, 5, 8], panic_is_violation=True)],
     trusted=["cpc: the reader (CpcSketch::deserialize, CompressedState::uncompress) has no Coq model; 'never panics' is "
              "observed by the harness on mutated images (debug and release, counting allocator), not proved",
